@@ -4,11 +4,12 @@ CONSTANTS
   W = 3
   Back = {1, 2}
   Fwd = {0, 1, 2, 3, 4, 5}
+  AbsLow = {1, 2}
   Pairings = {"A"}
   Foreign = {"X"}
   Iids = {1}
   Vals = {1}
-  Starts = {2}
+  Starts = {2, 65531}
   KeyAtStart = {TRUE}
   MaxSteps = 6
 PROPERTY OnlyAuthenticFresh
